@@ -32,11 +32,37 @@ def decode_string(a):
     return a["prefix"] + a["date"] + ("." + a["suffix"] if a["suffix"] else "") + (".%d" % a["respin"] if a["respin"] is not None else "")
 
 
+def is_lower_word(w):
+    return w != "" and all("a" <= c <= "z" for c in w)
+
+
+def unknown_pool(compose_types):
+    """suffix candidates outside the documented six.  It MUST contain the spelled-out name of every compose type of the
+    library (a table that learns `.development` or `.production` is only visible through exactly that word), their
+    prefixes and usual abbreviations, near misses of the documented spellings, and upper-case forms (for which the
+    pattern's type group does not apply: observation only, see decode_expect)."""
+    documented = set(k for k, _ in DOCUMENTED)
+    words = []
+    for t in list(compose_types) + ["production", "development", "nightly", "test", "ci"]:
+        words += [t, t[:1], t[:2], t[:3], t[:4], t[:-1], t + "s", t + t[-1], t.upper(), t.capitalize()]
+    words += ["dev", "devel", "prod", "c", "te", "ni", "x", "q", "nn", "tt", "dd", "cii", "night", "nightl", "tes", "z" * 9,
+              "N", "T", "D", "CI", "Nightly", "TEST"]
+    out = []
+    for w in words:
+        if w and w not in documented and w not in out:
+            out.append(w)
+    return out
+
+
 def decode_expect(a):
     """what the property requires of a structured decode case; None = no claim"""
     if "s" in a or "\n" in a["prefix"]:
         return None
     typ = dict(DOCUMENTED).get(a["suffix"] or "")
+    if typ is None and not is_lower_word(a["suffix"]):
+        # a suffix that is not a lower-case word is outside the pattern's `\.[a-z]+` group: it is not looked up at all
+        # (read as production / respin 0, exactly as C15_decoder_exact says); recorded as an observation, no claim
+        return None
     if typ is None:
         return {"err": "ValueError"}
     return {"ok": [a["date"], typ, a["respin"] or 0]}
@@ -71,7 +97,9 @@ class C15(Prop):
             "upper-case spellings and None), layered and not (every base-product type), the RHEL-5 Client/Server hack with 8 variant "
             "sets, digit-heavy shorts/versions (8+ digit runs inside the version), dates incl. 00000000/99999999, respins 0..10^7-1 "
             "and >= 10^7 (known finding F10); then decoded with get_date_type_respin and validated with Compose._validate_id; "
-            "decode: prefix+date+[.suffix][.respin] for every documented suffix spelling, unknown suffixes, missing respin, several "
+            "decode: prefix+date+[.suffix][.respin] for every documented suffix spelling, unknown suffixes from a pool that contains "
+            "the spelled-out name of every compose type, their prefixes/abbreviations and upper-case forms (round-robin; lower-case "
+            "words outside the documented six must raise ValueError, also inside a legacy document), missing respin, several "
             "8-digit runs, 9+ digit runs, Unicode digits, line feeds; legacy: composeinfo documents of version 0.0/0.1/0.2 (date, type, "
             "respin only inside the id) loaded with ComposeInfo.loads; every case also through the Lean model (correspondence). "
             "non-trivial = distinct case on which the real code returned a value")
@@ -144,9 +172,10 @@ class C15(Prop):
             suf = DOCUMENTED[k][0]
             respin = rng.randrange(10 ** rng.randint(1, 7)) if (i // 12) % 2 else None
             return {"op": "decode", "args": {"prefix": prefix, "date": date, "suffix": suf or None, "respin": respin}}
-        if k == 7:            # unknown suffix
-            suf = rng.choice(["x", "nn", "tt", "c", "night", "tes", "dd", "production", "z" * 9, "nightl", "ni", "q"])
-            return {"op": "decode", "args": {"prefix": prefix, "date": date, "suffix": suf, "respin": rng.choice([None, 0, 12])}}
+        if k == 7:            # unknown suffix: round-robin over the whole pool, so every full type name is decoded in every run
+            pool = unknown_pool(self.tables()["COMPOSE_TYPES"])
+            suf = pool[(i // 12) % len(pool)]
+            return {"op": "decode", "args": {"prefix": prefix, "date": date, "suffix": suf, "respin": [None, 0, 12][(i // 12 // len(pool)) % 3]}}
         if k == 8:
             s = prefix + rng.choice(["", "1", "1234567", "2016-01-01", "abc", "1234.5678"])       # usually no 8-digit run
         elif k == 9:
@@ -166,6 +195,11 @@ class C15(Prop):
         if c["respin"] >= 10 ** 7 and rng.random() < 0.7:
             c["respin"] = rng.randrange(10 ** 6)
         c["spelling"] = rng.choice(["short", "long"])
+        if i % 5 == 4:        # a legacy id carrying an undocumented lower-case suffix must be refused on load
+            pool = [w for w in unknown_pool(self.tables()["COMPOSE_TYPES"]) if is_lower_word(w)]
+            c["unknown_suffix"] = pool[(i // 5) % len(pool)]
+            if c["respin"] >= 10 ** 7:
+                c["respin"] = 3
         return {"op": "legacy", "args": c}
 
     def cases(self, rng, tier, budget):
@@ -183,6 +217,9 @@ class C15(Prop):
                   # production with respin 0 (recorded in the distribution as an observation; exact behaviour: C15_decoder_exact)
                   "f-23-20160101.X.1", "f-23-20160101.Nightly.2", "f-23-20160101.n1.3", "f-23-20160101.n_x.4"):
             yield {"op": "decode", "args": {"s": s}}
+        for w in unknown_pool(self.tables()["COMPOSE_TYPES"]):
+            if is_lower_word(w):
+                yield {"op": "decode", "args": {"prefix": "f-23-", "date": "20160101", "suffix": w, "respin": 2}}
         for i in range(budget):
             k = i % 6          # three streams, each with its own running index (round-robin over the tables inside)
             if k in (0, 1, 2):
@@ -216,6 +253,9 @@ class C15(Prop):
     def legacy_id(self, a):
         """the id an old tool would have stored: created by the real encoder, optionally with the long suffix spelling"""
         cid = self.build_ci(a).create_compose_id()
+        if a.get("unknown_suffix"):
+            cut = cid.rfind("-" + a["date"])
+            return cid[:cut] + "-%s.%s.%d" % (a["date"], a["unknown_suffix"], a["respin"])
         if a.get("spelling") == "long":
             for short, long_ in ((".n.", ".nightly."), (".t.", ".test.")):
                 tail = a["date"] + short + str(a["respin"])
@@ -312,6 +352,11 @@ class C15(Prop):
             if real_out["decoded"] != want:
                 return {"observed": {"id": cid, "decoded": real_out["decoded"]}, "required": want, "kind": "decode-differs"}
             return None
+        if case["op"] == "legacy" and a.get("unknown_suffix"):
+            if real_out["loaded"] != {"err": "ValueError"}:
+                return {"observed": {"id": real_out["id"], "header": a["header_version"], "loaded": real_out["loaded"]},
+                        "required": {"err": "ValueError"}, "kind": "unknown-suffix-accepted"}
+            return None
         if case["op"] == "legacy":
             want = {"ok": [a["date"], a["type"], a["respin"]]}
             if real_out["loaded"] != want:
@@ -338,6 +383,8 @@ class C15(Prop):
         if op == "decode":
             import re as _re
             mm = _re.search(r"\d{8}\.([A-Za-z_0-9]*[A-Z_][A-Za-z_0-9]*|[a-z]+[0-9_][a-z0-9_]*)\.(\d+)$", decode_string(a))
+            if "suffix" in a and a["suffix"] and not is_lower_word(a["suffix"]) and dict(DOCUMENTED).get(a["suffix"]) is None and "ok" in real_out:
+                inc("observation:non-lowercase suffix not rejected")
             if mm and "ok" in real_out and real_out["ok"][1:] == ["production", 0]:
                 inc("observation:non-lowercase suffix read as production, respin dropped")
             inc("decode:" + ("ok" if "ok" in real_out and real_out["ok"] != [None, None, None] else "none" if "ok" in real_out else real_out["err"]))
@@ -366,7 +413,7 @@ class C15(Prop):
         if case["op"] == "decode":
             if "s" in a:
                 return out
-            if a["prefix"]:
+            if a["prefix"] not in ("", "f-23-"):
                 out.append(mk(prefix="")); out.append(mk(prefix="f-23-"))
             if a["respin"]:
                 out.append(mk(respin=None)); out.append(mk(respin=0)); out.append(mk(respin=1))
